@@ -76,19 +76,31 @@ pub fn run_c01(r: &mut Report) {
     r.case("content-changed-after-signing", json!({"field": "steps[0].threshold"}), "Err",
            match &res { Ok(v) => verdict(v), Err(p) => format!("panic: {}", p) }, matches!(&res, Ok(v) if v.is_err()));
     tamper_every_leaf(r);
+    crate::c10::expiry_grid(r);
 }
 
 /// every leaf of the signed part of a rich layout changed in isolation (signatures kept): the owner signature must no longer verify.
 /// String leaves are changed by appending a character AND by swapping each special character for its escaped spelling
 /// (line feed <-> backslash-n, tab <-> backslash-t, backslash <-> two backslashes, quote <-> backslash-quote).
 pub fn tamper_every_leaf(r: &mut Report) {
+    // every supported owner key type; the genuine document is verified first in the same process (a verifier that remembers
+    // what it accepted must not carry that over to other content)
+    tamper_every_leaf_with(r, "ed25519", key(1));
+    for (kind, file, scheme) in [("rsassa-pss-sha256", "rsa/rsa-2048.pk8.der", in_toto::crypto::SignatureScheme::RsaSsaPssSha256),
+                                 ("ecdsa-sha2-nistp256", "ecdsa/ec.pk8.der", in_toto::crypto::SignatureScheme::EcdsaP256Sha256)] {
+        match std::fs::read(format!("/repo/tests/{}", file)).ok().and_then(|d| PrivateKey::from_pkcs8(&d, scheme).ok()) {
+            Some(k) => tamper_every_leaf_with(r, kind, k),
+            None => r.case("tamper-every-leaf-key", json!({"key": kind}), "test key loads", "could not load".into(), false),
+        }
+    }
+}
+fn tamper_every_leaf_with(r: &mut Report, kind: &str, owner: PrivateKey) {
     use in_toto::models::{inspection::Inspection, rule::{Artifact, ArtifactRule}, step::Step, LayoutMetadataBuilder, VirtualTargetPath};
-    let owner = key(1);
     let f = key(2);
     let p = |s: &str| VirtualTargetPath::new(s.to_string()).unwrap();
     // each string carries exactly ONE kind of special character, so that a writer with a "nothing to escape here" shortcut is exercised too
     let step = Step::new("build tab\there").threshold(2).add_key(f.key_id().clone())
-        .add_expected_material(ArtifactRule::Match { pattern: p("src/*"), in_src: Some("cr\rx".into()), with: Artifact::Products, in_dst: Some("out".into()), from: "fetch".into() })
+        .add_expected_material(ArtifactRule::Match { pattern: p("src/*"), in_src: Some("cr\rx".into()), with: Artifact::Products, in_dst: Some("crlf\r\nMixedCase".into()), from: "fetch".into() })
         .add_expected_product(ArtifactRule::Create(p("back\\slash"))).add_expected_product(ArtifactRule::Disallow(p("*")))
         .expected_command(cmd(&["sh", "-c", "quo\"te"]));
     let insp = Inspection::new("check").run(cmd(&["sh", "-c", "echo one\necho two"])).add_expected_material(ArtifactRule::Allow(p("*")));
@@ -114,6 +126,9 @@ pub fn tamper_every_leaf(r: &mut Report) {
         match cur {
             serde_json::Value::String(s) => {
                 variants.push(json!(format!("{}x", s)));
+                // changes that a "normalising" signer or verifier would not notice: case, surrounding blanks, line-end style, path spelling
+                for v in [s.to_lowercase(), s.to_uppercase(), format!("{} ", s), format!(" {}", s), s.trim().to_string(), s.replace("\r\n", "\n"), s.replace('\n', "\r\n"), s.replace('\r', ""),
+                          format!("./{}", s), format!("{}/", s), s.replacen('/', "//", 1), s.replace("//", "/")] { if &v != s { variants.push(json!(v)); } }
                 for (real, spelled) in [("\n", "\\n"), ("\t", "\\t"), ("\r", "\\r"), ("\\", "\\\\"), ("\"", "\\\""), ("\n", "\\u000a"), ("\t", "\\u0009")] {
                     if s.contains(real) { variants.push(json!(s.replacen(real, spelled, 1))); }
                     if s.contains(spelled) { variants.push(json!(s.replacen(spelled, real, 1))); }
@@ -138,11 +153,12 @@ pub fn tamper_every_leaf(r: &mut Report) {
             }
         }
     }
-    r.case("tamper-every-leaf", json!({"leaves": paths.len(), "tampered_documents": n, "untampered_verifies": control}), "no tampered document verifies",
+    r.case("tamper-every-leaf", json!({"owner_key": kind, "leaves": paths.len(), "tampered_documents": n, "untampered_verifies": control}), "no tampered document verifies",
            format!("accepted: {:?}", accepted), control && accepted.is_empty() && n > 40);
 }
 
 pub fn run_c06(r: &mut Report) {
+    use in_toto::models::LayoutMetadata;
     let o1 = key(1);
     for (days, expect) in [(30i64, true), (1, true), (-1, false), (-400, false)] {
         let (lay, d) = simple(&[&o1], days);
@@ -150,8 +166,46 @@ pub fn run_c06(r: &mut Report) {
         r.case("expiry", json!({"expires_in_days": days}), if expect { "Ok" } else { "Err" },
                match &res { Ok(v) => verdict(v), Err(p) => format!("panic: {}", p) }, matches!(&res, Ok(v) if v.is_ok() == expect));
     }
+    // verdict grid: every representable kind of instant (far past, epoch edges, clock-representation edges, near now, far future),
+    // set through the builder and read from a document; the layout is enforced exactly when the instant is not in the past
+    {
+        use chrono::{TimeZone, Utc, Duration};
+        let now = Utc::now();
+        let mut grid: Vec<chrono::DateTime<Utc>> = vec![];
+        for y in [1, 999, 1066, 1582, 1600, 1676, 1677, 1678, 1899, 1900, 1901, 1969, 1970, 1971, 2000, 2001, 2037, 2038, 2039, 2099, 2100, 2261, 2262, 2263, 2999, 5000, 9999] {
+            grid.push(Utc.with_ymd_and_hms(y, 1, 1, 0, 0, 0).unwrap());
+            grid.push(Utc.with_ymd_and_hms(y, 12, 31, 23, 59, 59).unwrap());
+        }
+        for secs in [-366 * 86400i64, -86400, -3600, -61, -5, 120, 3600, 86400, 366 * 86400] { grid.push(now + Duration::seconds(secs)); }
+        for t in grid {
+            let t = Utc.timestamp_opt(t.timestamp(), 0).unwrap();
+            let expect = t > now + Duration::seconds(60) || t >= Utc::now();
+            if (t - now).num_seconds().abs() < 3 { continue; }
+            for via in ["builder", "document"] {
+                let (lay0, d) = simple(&[&o1], 30);
+                let l0: LayoutMetadata = match lay0.metadata.clone() { MetadataWrapper::Layout(l) => l, _ => unreachable!() };
+                let l: Option<LayoutMetadata> = if via == "builder" { let mut l = l0.clone(); l.expires = t; Some(l) } else {
+                    let mut v = serde_json::to_value(&lay0).unwrap();
+                    v["signed"]["expires"] = json!(t.format("%Y-%m-%dT%H:%M:%SZ").to_string());
+                    serde_json::from_str::<Metablock>(&v.to_string()).ok().and_then(|m| match m.metadata { MetadataWrapper::Layout(l) => Some(l), _ => None }) };
+                let l = match l { Some(l) => l, None => { r.case("expiry-grid-parse", json!({"expires": t.to_rfc3339()}), "parses", "parse error".into(), false); continue; } };
+                let built = if via == "builder" { let b = in_toto::models::LayoutMetadataBuilder::new().expires(t).steps(l.steps.clone()).inspects(l.inspect.clone());
+                    let b = l.keys.values().fold(b, |b, k| b.add_key(k.clone()));
+                    b.readme(l.readme.clone()).build().ok() } else { Some(l.clone()) };
+                for (how, lm) in [("field", Some(l.clone())), ("constructed", built)] {
+                    let lm = match lm { Some(x) => x, None => { r.case("expiry-grid-build", json!({"expires": t.to_rfc3339()}), "builds", "build error".into(), false); continue; } };
+                    let mb = signed_layout(&lm, &[&o1]);
+                    let res = no_panic(|| in_toto_verify(&mb, owner_keys(&[&o1]), d.path().to_str().unwrap(), None));
+                    let good = matches!(&res, Ok(v) if v.is_ok() == expect);
+                    if !good || how == "field" && via == "builder" {
+                        r.case("expiry-verdict-grid", json!({"expires": t.to_rfc3339(), "via": via, "how": how}), if expect { "Ok" } else { "Err (expired)" },
+                               match &res { Ok(v) => verdict(v), Err(p) => format!("panic: {}", p) }, good);
+                    }
+                }
+            }
+        }
+    }
     // offset notation: an instant in the past written with a +14:00 offset whose local date is in the future
-    use in_toto::models::{LayoutMetadata};
     let past = chrono::Utc::now() - chrono::Duration::hours(1);
     let with_offset = past.with_timezone(&chrono::FixedOffset::east_opt(14 * 3600).unwrap()).to_rfc3339();
     let (lay, d) = simple(&[&o1], 30);
@@ -227,6 +281,17 @@ pub fn run_c04(r: &mut Report) {
                 signed_link(&l, &[&rsa]) },
             keys: vec![PublicKey::from_spki(&std::fs::read("/repo/tests/rsa/rsa-2048.spki.der").unwrap(), in_toto::crypto::SignatureScheme::RsaSsaPssSha512).unwrap()],
             t: 1, expect: false },
+        // a genuine signature copied under made-up key ids must not be counted again (the key id is not a hint to try other keys)
+        C { id: "genuine-signature-relabelled-under-unknown-ids", mb: {
+                let mut m = sign(&[&k1]);
+                let g = serde_json::to_value(&m.signatures[0]).unwrap();
+                for fake in ["11", "22", "33"] { m.signatures.push(serde_json::from_value(json!({"keyid": fake.repeat(32), "sig": g["sig"]})).unwrap()); }
+                m }, keys: pubs(&[&k1, &k2]), t: 2, expect: false },
+        C { id: "only-relabelled-copies", mb: {
+                let mut m = sign(&[&k1]);
+                let g = serde_json::to_value(&m.signatures[0]).unwrap();
+                m.signatures = vec![serde_json::from_value(json!({"keyid": "44".repeat(32), "sig": g["sig"]})).unwrap()];
+                m }, keys: pubs(&[&k1]), t: 1, expect: false },
         C { id: "tmax", mb: sign(&[&k1]), keys: pubs(&[&k1]), t: u32::MAX, expect: false },
         C { id: "no-signatures", mb: sign(&[]), keys: pubs(&[&k1]), t: 1, expect: false },
         C { id: "no-keys", mb: sign(&[&k1]), keys: vec![], t: 1, expect: false },
@@ -239,8 +304,43 @@ pub fn run_c04(r: &mut Report) {
     }
 }
 
+/// dissent in the SHAPE of a digest: a truncated or empty digest, an extra or a different algorithm are all disagreements
+pub fn digest_shape_dissent(r: &mut Report, repetitions: usize, tag: &str) {
+    use in_toto::crypto::{HashAlgorithm, HashValue};
+    use in_toto::models::{LinkMetadataBuilder, TargetDescription, VirtualTargetPath};
+    let owner = key(1);
+    let ks = [key(2), key(3), key(4)];
+    let td = |v: Vec<(HashAlgorithm, Vec<u8>)>| -> TargetDescription { v.into_iter().map(|(a, b)| (a, HashValue::new(b))).collect() };
+    let base = td(vec![(HashAlgorithm::Sha256, vec![7; 32])]);
+    let shapes: Vec<(&str, TargetDescription)> = vec![
+        ("truncated-digest", td(vec![(HashAlgorithm::Sha256, vec![7; 31])])), ("one-byte-digest", td(vec![(HashAlgorithm::Sha256, vec![7; 1])])),
+        ("empty-digest", td(vec![(HashAlgorithm::Sha256, vec![])])), ("longer-digest", td(vec![(HashAlgorithm::Sha256, vec![7; 33])])),
+        ("no-digest-at-all", td(vec![])), ("other-algorithm-same-bytes", td(vec![(HashAlgorithm::Sha512, vec![7; 32])])),
+        ("extra-algorithm", td(vec![(HashAlgorithm::Sha256, vec![7; 32]), (HashAlgorithm::Sha512, vec![7; 64])])),
+    ];
+    for (id, odd) in shapes {
+        for pos in 0..3usize {
+            let d = tmpdir();
+            for (i, k) in ks.iter().enumerate() {
+                let t = if i == pos { odd.clone() } else { base.clone() };
+                let l = LinkMetadataBuilder::new().name("a".into()).products([(VirtualTargetPath::new("p".into()).unwrap(), t)].into_iter().collect()).build().unwrap();
+                write_link(d.path(), "a", k.key_id(), &signed_link(&l, &[k]));
+            }
+            let refs: Vec<&PrivateKey> = ks.iter().collect();
+            let lay = signed_layout(&layout(vec![step("a", 2, &refs, allow_all(), allow_all())], vec![], &refs, 30), &[&owner]);
+            let mut seen = std::collections::BTreeSet::new();
+            for _ in 0..repetitions {
+                let res = no_panic(|| in_toto_verify(&lay, owner_keys(&[&owner]), d.path().to_str().unwrap(), None));
+                seen.insert(match &res { Ok(v) => if v.is_ok() { "Ok".to_string() } else { "Err".to_string() }, Err(p) => format!("panic: {}", p) });
+            }
+            r.case(tag, json!({"dissent": id, "dissenting_link": pos, "threshold": 2, "links": 3, "repetitions": repetitions}), "Err on every run", format!("{:?}", seen), seen.len() == 1 && seen.contains("Err"));
+        }
+    }
+}
+
 pub fn run_c07(r: &mut Report) {
     agreement_matrix(r, 1, "agreement");
+    digest_shape_dissent(r, 1, "digest-shape-dissent");
     let owner = key(1);
     let ka = key(2);
     let kb = key(3);
@@ -288,6 +388,7 @@ pub fn agreement_matrix(r: &mut Report, repetitions: usize, tag: &str) {
                         let l = if i == pos { link("a", dm, dp) } else { link("a", &[("m", 1)], &[("p", 2), ("q", 5)]) };
                         write_link(d.path(), "a", k.key_id(), &signed_link(&l, &[k]));
                     }
+                    let _ = &kinds;
                     let l = layout(vec![step("a", threshold, &ks, allow_all(), allow_all())], vec![], &ks, 30);
                     let lay = signed_layout(&l, &[&owner]);
                     let mut seen = std::collections::BTreeSet::new();
